@@ -346,6 +346,81 @@ def unloadable_then_good(res):
     return n
 
 
+HELPER_MAIN = "from nada_dsl import *\nimport {mod}\n\n\ndef nada_main():\n    p = Party(name='P')\n    a = SecretInteger(Input(name='a', party=p))\n" \
+              "    b = SecretInteger(Input(name='b', party=p))\n    return [Output({mod}.combine(a, b), 'o', p)]\n"
+OPTIONAL_MAIN = "from nada_dsl import *\ntry:\n    import {mod}\n    combine = {mod}.combine\nexcept ImportError:\n    def combine(x, y):\n        return x - y\n\n\n" \
+                "def nada_main():\n    p = Party(name='P')\n    a = SecretInteger(Input(name='a', party=p))\n" \
+                "    b = SecretInteger(Input(name='b', party=p))\n    return [Output(combine(a, b), 'o', p)]\n"
+
+
+def same_named_helpers(res, tier):
+    """Projects in different directories whose programs import a helper module of the same name (each project its own
+    `fees.py`, with another body), a project that has no such helper and falls back when the import fails, and a helper
+    package: the program compiled after the other projects must compile as it does alone in a new interpreter."""
+    tmp = tempfile.mkdtemp(prefix="nvc08h")
+    n = 0
+    try:
+        bodies = ["def combine(x, y):\n    return x + y\n", "def combine(x, y):\n    return x * y\n",
+                  "from nada_dsl import *\nK = Integer(3)\n\n\ndef combine(x, y):\n    return x * K + y\n"]
+        cases = []
+        for mod, pkg in (("fees", False), ("shared_rules", True)):
+            projs = []
+            for k, body in enumerate(bodies):
+                d = os.path.join(tmp, f"{mod}{k}")
+                if pkg:
+                    os.makedirs(os.path.join(d, mod), exist_ok=True)
+                    with open(os.path.join(d, mod, "__init__.py"), "w", encoding="utf-8") as f:
+                        f.write(body)
+                else:
+                    os.makedirs(d, exist_ok=True)
+                    with open(os.path.join(d, mod + ".py"), "w", encoding="utf-8") as f:
+                        f.write(body)
+                with open(os.path.join(d, "main.py"), "w", encoding="utf-8") as f:
+                    f.write(HELPER_MAIN.format(mod=mod))
+                projs.append(os.path.join(d, "main.py"))
+            d = os.path.join(tmp, f"{mod}none")
+            os.makedirs(d, exist_ok=True)
+            with open(os.path.join(d, "main.py"), "w", encoding="utf-8") as f:
+                f.write(OPTIONAL_MAIN.format(mod=mod))
+            lone = os.path.join(d, "main.py")
+            cases += [[projs[0], projs[1]], [projs[1], projs[0]], [projs[0], projs[1], projs[2]], [projs[2], projs[0], projs[2]],
+                      [projs[0], lone], [projs[1], projs[0], projs[1]]]
+        if tier == "quick":
+            cases = cases[:3] + cases[4:5] + cases[6:8] + cases[10:11]
+
+        def one(paths):
+            return paths, fresh_process("script", paths, tmp)[-1], fresh_process("script", paths[-1:], tmp)[-1]
+        with ThreadPoolExecutor(max_workers=8) as ex:
+            for paths, a, b in ex.map(one, cases):
+                n += 1
+                text = None
+                if "harness" in (a.get("err"), b.get("err")):
+                    raise RuntimeError(f"fresh process failed: {a.get('msg')} {b.get('msg')}")
+                if ("mir" in a) != ("mir" in b):
+                    text = f"after the history: {a.get('msg', 'compiled')}; alone: {b.get('msg', 'compiled')}"
+                elif "mir" in a:
+                    dd = cm.first_diff(normalize(cm.canon_mir(a["mir"])), normalize(cm.canon_mir(b["mir"])))
+                    if dd:
+                        text = f"the MIR differs from the MIR of the same file compiled alone: {dd}"
+                elif a.get("err") != b.get("err"):
+                    text = f"after the history: {a.get('msg')}; alone: {b.get('msg')}"
+                if text:
+                    rel = [os.path.relpath(x, tmp) for x in paths]
+                    srcs = {}
+                    for x in paths:
+                        for root, _, files in os.walk(os.path.dirname(x)):
+                            for fn in files:
+                                full = os.path.join(root, fn)
+                                with open(full, encoding="utf-8") as f:
+                                    srcs[os.path.relpath(full, tmp)] = f.read()
+                    res.violation({"property": "C08", "kind": "same-named-helpers", "order": rel, "files": srcs, "text": text},
+                                  f"projects {rel} compiled in this order in one process, each with its own helper module of the same name: "
+                                  f"the last one: {text}"[:400])
+    finally:
+        shutil.rmtree(tmp, ignore_errors=True)
+    return n
+
+
 def names_of(mir):
     out = set()
     out.update(("input", i["name"]) for i in mir["inputs"])
@@ -402,6 +477,7 @@ def run(res, tier):
     reset_globals()
     fp = fresh_process_histories(res, tier)
     fp["after_unloadable_programs"] = unloadable_then_good(res)
+    fp["same_named_helper_orders"] = same_named_helpers(res, tier)
     for idx, d, combined in diffs[:5]:
         res.broken.append({"decl": "K3 correspondence (history run: model vs real implementation)",
                            "msg": json.dumps(d, default=str)[:500], "history": combined})
@@ -440,6 +516,23 @@ def replay(obj):
         if c.violations:
             print("VIOLATION property=C08 replay=(replayed)")
         return 1 if c.violations else 0
+    if obj.get("kind") == "same-named-helpers":
+        tmp = tempfile.mkdtemp(prefix="nvc08h")
+        try:
+            for rel, text in obj["files"].items():
+                os.makedirs(os.path.dirname(os.path.join(tmp, rel)), exist_ok=True)
+                with open(os.path.join(tmp, rel), "w", encoding="utf-8") as f:
+                    f.write(text)
+            paths = [os.path.join(tmp, rel) for rel in obj["order"]]
+            a, b = fresh_process("script", paths, tmp)[-1], fresh_process("script", paths[-1:], tmp)[-1]
+        finally:
+            shutil.rmtree(tmp, ignore_errors=True)
+        bad = ("mir" in a) != ("mir" in b) or ("mir" in a and cm.first_diff(normalize(cm.canon_mir(a["mir"])), normalize(cm.canon_mir(b["mir"])))) \
+            or ("mir" not in a and a.get("err") != b.get("err"))
+        print("differs" if bad else "same")
+        if bad:
+            print("VIOLATION property=C08 replay=(replayed)")
+        return 1 if bad else 0
     if obj.get("kind") == "fresh-process-history":
         tmp = tempfile.mkdtemp(prefix="nvc08f")
         try:
